@@ -17,7 +17,10 @@ CHECKS = {
             BOUNDED % "01" + "get_nodes(mustexist=True|False)/exists compared with spec.query (node identity + order, both notations) over all documents "
             "<= 4 nodes x the segment vocabulary.  Deductive part: the handlers it rests on are verified for safety under C15; functional "
             "post-conditions are discharged for the KEY handler (hash, integer-key mismatch, list index: exactly this child; pass-through: each "
-            "element handed on with its own coordinates) and the unfiltered wildcard; the other handlers are not, so nothing is claimed as proved here.",
+            "element handed on with its own coordinates), the INDEX handler (plain index incl. negative; hash / set slices select by the text range) and the "
+            "unfiltered wildcard, and for the entry points exists / get_nodes (which driver runs on the whole document, results relayed unchanged, "
+            "Unmatched exactly when nothing was yielded, exists <=> the required driver yields something); the SEARCH / ANCHOR / traversal handlers and "
+            "the drivers' concatenation are not, so nothing is claimed as proved here.",
             "bounded run-time contract check of the real query API against an executable spec (stand-in for the deductive handler post-conditions)",
             "DESIGN.md §6 C01, Appendix A"),
     "C02": ("exploration",
@@ -28,11 +31,15 @@ CHECKS = {
             "bounded run-time contract check (wf + re-query of every result)",
             "DESIGN.md §6 C02"),
     "C03": ("exploration",
-            BOUNDED % "03" + "set_value against a plain-data model incl. aliases, dump+strict reload, and edit histories (set/create/delete) step by step.",
+            BOUNDED % "03" + "set_value against a plain-data model incl. aliases, dump+strict reload, and edit histories (set/create/delete) step by step.  "
+            "Deductive part (proved, 81 VCs): set_value gathers every match of ONE driver (required when mustexist, else the creating one, given the value) before "
+            "changing anything and applies the change to each gathered match exactly once with the given value; the replacement itself (_apply_change) is bounded only.",
             "bounded run-time contract check against a plain-data model; histories exhaustive to length 3",
             "DESIGN.md §6 C03/C04"),
     "C04": ("exploration",
-            BOUNDED % "04" + "delete_nodes/delete_gathered_nodes against the model: multi-match, nested, empty targets, negative indexes, double matches, root refusal.",
+            BOUNDED % "04" + "delete_nodes/delete_gathered_nodes against the model: multi-match, nested, empty targets, negative indexes, double matches, root refusal.  "
+            "Deductive part (proved, 67 VCs): delete_nodes yields and gathers every match of the required driver, deletes nothing meanwhile, and hands exactly the "
+            "gathered list to the deletion once; the deletion itself (_delete_nodes) is bounded only.",
             "bounded run-time contract check against a plain-data model",
             "DESIGN.md §6 C03/C04"),
     "C05": ("exploration",
@@ -102,7 +109,8 @@ CHECKS = {
             "DESIGN.md §6 C15"),
     "C16": ("exploration",
             BOUNDED % "16" + "the six console entry points run in-process (argv/stdin/stdout patched) against the library answers: output lines, files, exit codes, "
-            "file vs stdin delivery, YAML and JSON.",
+            "file vs stdin delivery, YAML and JSON, --quiet, empty --value.  Deductive part (proved, 16 VCs): yaml_diff.print_report returns True exactly when some report "
+            "entry is not SAME, whatever the print options.",
             "bounded in-process contract check of the CLI entry points",
             "DESIGN.md §6 C16"),
     "C17": ("fault_enumeration",
